@@ -33,7 +33,7 @@ CASES = [
     m('lazy-reset-removed', 'R3', 'lazy-reset', RP,
       "            self.TOOLS[tool_name].reset(report=self)\n", "            self._tool_data[tool_name] = {}\n"),
     m('cait-reset-mutates-in-place', 'R3', 'reset@pedal.cait.cait_api', CA,
-      "    report[TOOL_NAME] = {\n        'success': True,\n        'error': None,\n        'ast': None,\n        'cache': {}\n    }",
+      "    report[TOOL_NAME] = {\n        'success': True,\n        'error': None,\n        'ast': None,\n        'cache': {},\n        'errors': {}\n    }",
       "    report[TOOL_NAME].update({\n        'success': True,\n        'error': None,\n        'ast': None,\n    })"),
     m('environment-without-clear', 'R4', 'Environment.__init__', EN, "        self.report = report\n        report.clear()\n", "        self.report = report\n"),
     dict(name='environment-clears-after-contextualize', kind='mutant', rule='R4', key='Environment.__init__',
